@@ -853,6 +853,32 @@ func ruleBlobProvenance(c *Check, p *Prog) {
 			}
 		}
 	}
+	if !okD {
+		// the marshal function given as the method expression (*types.SignedData).MarshalBinary
+		for _, b := range sd.Blocks {
+			for _, in := range b.Instrs {
+				call, ok := in.(*ssa.Call)
+				if !ok || call.Common().StaticCallee() == nil || !isSubmitterFn(call.Common().StaticCallee()) {
+					continue
+				}
+				for _, a := range call.Common().Args {
+					v := a
+					if ct, isCT := v.(*ssa.ChangeType); isCT {
+						v = ct.X
+					}
+					if mc, isMC := v.(*ssa.MakeClosure); isMC {
+						v = mc.Fn
+					}
+					if af, isF := v.(*ssa.Function); isF {
+						nm := strings.TrimSuffix(strings.TrimSuffix(fnName(af), "$thunk"), "$bound")
+						if strings.HasSuffix(nm, "types.SignedData).MarshalBinary") {
+							okD = true
+						}
+					}
+				}
+			}
+		}
+	}
 	if okD {
 		c.OK(rule, "data-blob = SignedData.MarshalBinary", fnName(sd), p.Pos(sd.Pos()), "the data blob is the binary encoding of the signed data", true)
 	} else {
@@ -940,6 +966,17 @@ func ruleBlobProvenance(c *Check, p *Prog) {
 				}
 			}
 		}
+		if pk.Name == "missing" && strings.Contains(pkS, "missing") && len(st["Signer"]) == 1 {
+			// the signer identity is built by a helper of the package and copied whole
+			for _, lv := range p.returnedLits(st["Signer"][0], ctx, 2) {
+				if pkv := lv.Field("PubKey"); len(pkv) == 1 {
+					pkS = pkv[0].String()
+					if adv := lv.Field("Address"); len(adv) == 1 {
+						adS = adv[0].String()
+					}
+				}
+			}
+		}
 		chk("SignedData.Signer.PubKey", strings.Contains(pkS, "signer.Signer).GetPublic(") && strings.HasSuffix(pkS, "#0"), pkS)
 		chk("SignedData.Signer.Address", strings.HasSuffix(adS, ".genesis.ProposerAddress"), adS)
 	}
@@ -982,13 +1019,22 @@ func runC08(c *Check) {
 			t, pol = normFact(t, pol)
 			return pol && t.Op == "bin" && t.Name == ">=" && strings.Contains(t.Args[0].String(), ").numPending") && strings.HasSuffix(t.Args[1].String(), ".MaxPendingHeadersAndData")
 		}))
+		isLimit := func(t *Term) bool { return strings.HasSuffix(t.unconv().String(), ".MaxPendingHeadersAndData") }
+		isZero := func(t *Term) bool { u := t.unconv(); return u.Op == "const" && strings.HasPrefix(u.Name, "0") }
 		isLimitNZ := func(f Fact) bool {
-			t := f.Cond
-			return f.Pol && t.Op == "bin" && t.Name == "!=" && strings.HasSuffix(t.Args[0].String(), ".MaxPendingHeadersAndData") && t.Args[1].Name == "0"
+			a, op, b, ok := canonCmp(f.Cond, f.Pol)
+			if !ok {
+				return false
+			}
+			return (op == "!=" && ((isLimit(a) && isZero(b)) || (isLimit(b) && isZero(a)))) || (op == "<" && isZero(a) && isLimit(b)) || (op == ">" && isLimit(a) && isZero(b))
 		}
 		isOver := func(f Fact) bool {
-			t := f.Cond
-			return f.Pol && t.Op == "bin" && t.Name == ">=" && strings.Contains(t.Args[0].String(), ").numPending") && strings.HasSuffix(t.Args[1].String(), ".MaxPendingHeadersAndData")
+			a, op, b, ok := canonCmp(f.Cond, f.Pol)
+			if !ok {
+				return false
+			}
+			cnt := func(t *Term) bool { return strings.Contains(t.String(), ").numPending") }
+			return (op == ">=" && cnt(a) && isLimit(b)) || (op == "<=" && isLimit(a) && cnt(b))
 		}
 		for _, x := range refusing {
 			pos := p.InstrPos(x.In)
@@ -1884,8 +1930,29 @@ func submitterCallers(p *Prog) []*ssa.Function {
 // loaded from exactly the paths they are saved to.
 func ruleCachePathsAgree(c *Check, p *Prog) {
 	rule := "C07-R6"
-	savers := funcsCalling(p, rootPath+"/block", func(n string) bool { return strings.HasSuffix(n, "Cache[_]).SaveToDisk") })
-	loaders := funcsCalling(p, rootPath+"/block", func(n string) bool { return strings.HasSuffix(n, "Cache[_]).LoadFromDisk") })
+	usesMethod := func(suffix string) []*ssa.Function {
+		out := funcsCalling(p, rootPath+"/block", func(n string) bool { return strings.HasSuffix(n, suffix) })
+		for _, fn := range p.Funcs {
+			pk := fnPkg(fn)
+			if pk == nil || pk.Pkg.Path() != rootPath+"/block" || fn.Parent() != nil {
+				continue
+			}
+			if len(boundMethodRows(fn, suffix)) > 0 {
+				dup := false
+				for _, o := range out {
+					if o == fn {
+						dup = true
+					}
+				}
+				if !dup {
+					out = append(out, fn)
+				}
+			}
+		}
+		return out
+	}
+	savers := usesMethod("Cache[_]).SaveToDisk")
+	loaders := usesMethod("Cache[_]).LoadFromDisk")
 	if len(savers) != 1 || len(loaders) != 1 {
 		c.Unk(rule, "cache-save/load", "", "", fmt.Sprintf("anchor lost: %d functions saving and %d loading the caches", len(savers), len(loaders)))
 		return
@@ -1908,6 +1975,40 @@ func ruleCachePathsAgree(c *Check, p *Prog) {
 				// make the receiver's name irrelevant
 				path = strings.ReplaceAll(path, recv+".", "recv.")
 				out[which.Name] = path
+			}
+		}
+		// the method taken as a value in a table of steps walked by a loop: one call per row,
+		// the row's fields standing for themselves in the path
+		rows := boundMethodRows(fn, suffix)
+		if len(rows) > 0 {
+			for _, b := range fn.Blocks {
+				for _, in := range b.Instrs {
+					call, ok := in.(*ssa.Call)
+					if !ok || call.Common().StaticCallee() != nil || call.Common().IsInvoke() || len(call.Common().Args) < 1 {
+						continue
+					}
+					al, _ := tableField(call.Common().Value, 0)
+					if al == nil || al != rows[0].table {
+						continue
+					}
+					at := TermOf(call.Common().Args[0], ctx)
+					for _, r := range rows {
+						path := at.String()
+						at.Walk(func(x *Term) bool {
+							if x.V == nil {
+								return true
+							}
+							if tal, tf := tableField(x.V, 0); tal == r.table && tf != "" {
+								if vs := r.fields[tf]; len(vs) == 1 {
+									path = strings.ReplaceAll(path, x.String(), TermOf(vs[0], ctx).String())
+								}
+							}
+							return true
+						})
+						path = strings.ReplaceAll(path, recv+".", "recv.")
+						out[r.which] = path
+					}
+				}
 			}
 		}
 		return out
@@ -1960,4 +2061,57 @@ func ruleCachesSavedAfterJoin(c *Check, p *Prog, rule string) {
 	if n == 0 {
 		c.Unk(rule, "anchor-count", "", "", "anchor lost: no function of the node package saves the block manager's caches")
 	}
+}
+
+// boundMethodRows: fn builds a local table (slice / array literal of structs) one of whose fields
+// holds, row by row, a method value of a receiver field (m.headerCache.LoadFromDisk): the rows with
+// the receiver field's label and the row's other fields.
+type methodRow struct {
+	table  *ssa.Alloc
+	which  string
+	fields map[string][]ssa.Value
+}
+
+func boundMethodRows(fn *ssa.Function, suffix string) []methodRow {
+	var out []methodRow
+	ctx := &Ctx{Fn: fn}
+	for _, b := range fn.Blocks {
+		for _, in := range b.Instrs {
+			al, ok := in.(*ssa.Alloc)
+			if !ok {
+				continue
+			}
+			if _, isArr := al.Type().(*types.Pointer).Elem().Underlying().(*types.Array); !isArr {
+				continue
+			}
+			rows := litStores(al)
+			for i := 0; ; i++ {
+				prefix := fmt.Sprintf("[%d].", i)
+				fields := map[string][]ssa.Value{}
+				for k, v := range rows {
+					if strings.HasPrefix(k, prefix) {
+						fields[strings.TrimPrefix(k, prefix)] = v
+					}
+				}
+				if len(fields) == 0 {
+					break
+				}
+				for _, vs := range fields {
+					if len(vs) != 1 {
+						continue
+					}
+					mc, ok := vs[0].(*ssa.MakeClosure)
+					if !ok || len(mc.Bindings) != 1 {
+						continue
+					}
+					mf, _ := mc.Fn.(*ssa.Function)
+					if mf == nil || !strings.HasSuffix(strings.TrimSuffix(genericName(fnName(mf)), "$bound"), suffix) {
+						continue
+					}
+					out = append(out, methodRow{table: al, which: TermOf(mc.Bindings[0], ctx).Name, fields: fields})
+				}
+			}
+		}
+	}
+	return out
 }
